@@ -253,22 +253,17 @@ func (c *CConn) SendRaw(b []byte) error {
 var ErrTimeout = errors.New("srvlab: timeout")
 
 func (c *CConn) wait(d time.Duration, pred func() bool) bool {
-	deadline := time.Now().Add(d)
-	stop := make(chan struct{})
-	go func() {
-		t := time.NewTimer(d)
-		defer t.Stop()
-		select {
-		case <-t.C:
-			c.mu.Lock()
-			c.cond.Broadcast()
-			c.mu.Unlock()
-		case <-stop:
-		}
-	}()
-	defer close(stop)
+	// called with c.mu held
+	timedOut := false
+	t := time.AfterFunc(d, func() {
+		c.mu.Lock()
+		timedOut = true
+		c.cond.Broadcast()
+		c.mu.Unlock()
+	})
+	defer t.Stop()
 	for !pred() {
-		if time.Now().After(deadline) {
+		if timedOut || d <= 0 {
 			return false
 		}
 		c.cond.Wait()
